@@ -324,6 +324,23 @@ func c03iHeld(reg *allocator.Registry, field, sessID string) int {
 	return n
 }
 
+// c03iHeldPD counts the delegated-prefix leases recorded for a session id.
+func c03iHeldPD(reg *allocator.Registry, sessID string) int {
+	f := reflect.ValueOf(reg).Elem().FieldByName("pdAllocators")
+	it := reflect.NewAt(f.Type(), unsafe.Pointer(f.UnsafeAddr())).Elem().MapRange()
+	n := 0
+	for it.Next() {
+		lf := it.Value().Elem().FieldByName("leases")
+		lt := reflect.NewAt(lf.Type(), unsafe.Pointer(lf.UnsafeAddr())).Elem().MapRange()
+		for lt.Next() {
+			if lt.Value().String() == sessID {
+				n++
+			}
+		}
+	}
+	return n
+}
+
 func (s *c03iSB) queued(who string) bool {
 	for _, p := range s.pending {
 		if p.mac == who {
@@ -333,7 +350,7 @@ func (s *c03iSB) queued(who string) bool {
 	return false
 }
 
-func c03iNew(pool4, pool6 int) (*c03iHarness, func()) {
+func c03iNew(pool4, pool6 int, relay bool) (*c03iHarness, func()) {
 	v4 := map[string]*ip.IPv4Profile{
 		"v4": {Gateway: "10.66.0.1", Pools: []ip.IPv4Pool{{Name: "p4", Network: "10.66.0.0/24",
 			RangeStart: "10.66.0.2", RangeEnd: "10.66.0." + strconv.Itoa(1+pool4)}}},
@@ -350,6 +367,9 @@ func c03iNew(pool4, pool6 int) (*c03iHarness, func()) {
 	}
 	if pool6 == 0 {
 		v6["v6"].IANAPools[0].RangeStart, v6["v6"].IANAPools[0].RangeEnd = "2001:db8:66::1", "2001:db8:66::1"
+	}
+	if relay { // case kind ipoer: the access group's DHCPv4 profile is in relay mode (server replies are forwarded)
+		v4["v4"].DHCP = &ip.IPv4DHCPOptions{Mode: "relay"}
 	}
 	cfg := &config.Config{
 		SubscriberGroups: &subscriber.SubscriberGroupsConfig{
@@ -386,7 +406,7 @@ func c03iNew(pool4, pool6 int) (*c03iHarness, func()) {
 		vpp:              h.sb,
 		svcGroupResolver: svcgroup.New(),
 		cache:            mc,
-		dhcp4Providers:   map[string]dhcp4.DHCPProvider{"local": p4},
+		dhcp4Providers:   map[string]dhcp4.DHCPProvider{"local": p4, "relay": p4},
 		dhcp6Providers:   map[string]dhcp6.DHCPProvider{"local": p6},
 		raBuckets:        make(map[int][]string),
 	}
@@ -464,6 +484,35 @@ func (h *c03iHarness) step(ev string) {
 		h.mu.Unlock()
 	}()
 	switch f[0] {
+	case "A": // A:<i>:<kind>:<msg> — a packet of ANOTHER subscriber whose identity differs from slot i's in exactly one key
+		// component: c = C-VLAN (same MAC, same S-VLAN), m0..m5 = that MAC byte.  msg: d = DISCOVER, r = REQUEST,
+		// s = SOLICIT, q = REQUEST6.  It must never find slot i's session: a new, pending session with its own AAA request.
+		i := idx(f[1])
+		var p *dataplane.ParsedPacket
+		h.xid++
+		switch f[3] {
+		case "d":
+			p = h.v4pkt(i, layers.DHCPMsgTypeDiscover, nil, nil, h.xid)
+		case "r":
+			p = h.v4pkt(i, layers.DHCPMsgTypeRequest, nil, nil, h.xid)
+		case "s":
+			p = h.v6pkt(i, dhcp6.MsgTypeSolicit)
+		default:
+			p = h.v6pkt(i, dhcp6.MsgTypeRequest)
+		}
+		mac := append(net.HardwareAddr(nil), h.macs[i]...)
+		if f[2] == "c" {
+			p.InnerVLAN = 777
+		} else {
+			mac[int(f[2][1]-'0')] ^= 0x40
+		}
+		p.MAC = mac
+		if p.DHCPv4 != nil {
+			p.DHCPv4.ClientHWAddr = mac
+			_ = h.c.processDHCPPacket(p)
+		} else {
+			_ = h.c.processDHCPv6Packet(p)
+		}
 	case "D":
 		h.xid++
 		_ = h.c.processDHCPPacket(h.v4pkt(idx(f[1]), layers.DHCPMsgTypeDiscover, nil, nil, h.xid))
@@ -597,7 +646,7 @@ func (h *c03iHarness) monStep(ev string, curBefore [3]string, exBefore [3]bool, 
 						(s.AllocCtx != nil && (s.AllocCtx.IPv4Address != nil || s.AllocCtx.IPv6Address != nil))
 					id := s.SessionID
 					s.mu.Unlock()
-					if dirty || c03iHeld(h.reg, "allocators", id)+c03iHeld(h.reg, "ianaAllocators", id) > 0 || h.sb.queued(curBefore[i]) {
+					if dirty || c03iHeld(h.reg, "allocators", id)+c03iHeld(h.reg, "ianaAllocators", id)+c03iHeldPD(h.reg, id) > 0 || h.sb.queued(curBefore[i]) {
 						h.viol = "VIOLATION"
 					}
 				}
@@ -638,12 +687,12 @@ func (h *c03iHarness) monStep(ev string, curBefore [3]string, exBefore [3]bool, 
 // case line: ipoe <pool4> <pool6> <ev> ...
 func c03iRunCase(line string) string {
 	f := strings.Fields(line)
-	if len(f) < 3 || (f[0] != "ipoe" && f[0] != "ipoec") {
+	if len(f) < 3 || (f[0] != "ipoe" && f[0] != "ipoec" && f[0] != "ipoer") {
 		return "badcase"
 	}
 	p4, _ := strconv.Atoi(f[1])
 	p6, _ := strconv.Atoi(f[2])
-	h, closeFn := c03iNew(p4, p6)
+	h, closeFn := c03iNew(p4, p6, f[0] == "ipoer")
 	defer closeFn()
 	var steps []string
 	done := make(chan string, 1)
